@@ -143,6 +143,8 @@ SEQUENCE_decode_oer(const asn_codec_ctx_t *opt_codec_ctx,
             RETURN(RC_FAIL);
         }
         preamble->nboff = has_extensions_bit;
+        /* The extension bit; reading the presence bits moves preamble->buffer */
+        ctx->context = has_extensions_bit && (((const uint8_t *)ptr)[0] & 0x80);
         ctx->ptr = preamble;
         ADVANCE(preamble_bytes);
     }
@@ -241,8 +243,7 @@ SEQUENCE_decode_oer(const asn_codec_ctx_t *opt_codec_ctx,
         int has_extensions_bit = (specs->first_extension >= 0);
         int extensions_present =
             has_extensions_bit
-            && (preamble->buffer == NULL
-                || (((const uint8_t *)preamble->buffer)[0] & 0x80));
+            && (preamble->buffer == NULL || ctx->context);
         uint8_t unused_bits;
         size_t len = 0;
         ssize_t len_len;
